@@ -26,7 +26,7 @@ Inductive psite :=
   | PS_dir_before_sub            (* is_directive_before_next_token: index - last_index *)
   | PS_dir_after_sub             (* is_directive_after_prev_token: last_index - index *)
   | PS_dir_after_index0          (* is_directive_after_prev_token: pass_indices[0] *)
-  | PS_portability_sub           (* consolidate_portability_directives: len - 1 / line_index -= 1 *)
+  | PS_portability_sub           (* consolidate_portability_directives: tokens.len() - 1 *)
   | PS_line_ref.                 (* get_logical_line_from_ref(..).unwrap() *)
 Inductive perr := E_fuel | E_panic (site : psite).
 
@@ -417,13 +417,21 @@ Fixpoint portability_go (li : nat) (s : pstate) : pstate :=
                   | _ => s end in
         match li with O => s1 | S p => portability_go p s1 end
   end.
+(* `while line_index > 0 && matches!(type at line_index, Some(Comment(_))) { line_index -= 1 }`:
+   comments that trail the declaration are not part of it *)
+Fixpoint skip_trailing_comments (s : pstate) (li : nat) : nat :=
+  match li with
+  | O => O
+  | S p => match line_tt s li with Some (RTT_Comment _) => skip_trailing_comments s p | _ => li end
+  end.
 Definition consolidate_portability_directives (s : pstate) : pstate :=
   if negb (existsb (fun t => match t with RTT_Op (OK_Equal _ | OK_Colon) => true | _ => false end) (cur_line_tts s)) then s
   else match length (cur_toks s) with
-       | O => fail (E_panic PS_portability_sub) s
+       | O => fail (E_panic PS_portability_sub) s          (* tokens.len() - 1 *)
        | S li =>
-           if o_semicolon (last (map Some (cur_line_tts s)) None) then
-             match li with O => fail (E_panic PS_portability_sub) s | S li' => portability_go li' s end
+           let li := skip_trailing_comments s li in
+           if o_semicolon (line_tt s li) then
+             match li with O => s (* checked_sub(1) is None: return *) | S li' => portability_go li' s end
            else portability_go li s
        end.
 
@@ -826,461 +834,622 @@ Definition import_op (s : pstate) : pstate :=
               | Some (RTT_Keyword (KK_In _)) => set_current_token_type (RTT_Keyword (KK_In IK_Import)) s
               | _ => s end).
 
+(* The arms of `run`, each as a definition over the recursive callback R (= `run f` for the
+   remaining fuel f).  `run` below only dispatches. *)
+Section Arms.
+Variable R : call -> pstate -> pstate.
+Definition stmt_block (t : ctype) (p : cpred) (l : clevel) (k : skind) : pstate -> pstate :=
+  R (C_stmt_block (ctx t true p l) k).
+
+Definition arm_with_ctx (cx : pctx) (a : action) (s : pstate) : pstate :=
+  let par := clevel_parent (c_level cx) in
+  let s := match par with
+           | Some p => p_emit KC (mkLM (Some p) 0%N LLT_Unknown) s
+           | None => finish_logical_line s
+           end in
+  let s := push_ctx cx s in
+  let s := match a with
+           | A_stmt_list t => R (C_stmt_list t false P_semicolon) s
+           | A_structures => R C_structures s
+           | A_block => finish_logical_line (R C_structures s)
+           | A_next_token => next_token s
+           | A_routine => R C_routine s
+           | A_asm => parse_asm_instructions s
+           end in
+  let s := pop_ctx s in
+  match par with Some _ => p_emit Kc lm0 s | None => s end.
+
+Definition arm_block (cx : pctx) (s : pstate) : pstate :=
+  R (C_with_ctx cx A_block) s.
+
+Definition arm_stmt_block (cx : pctx) (k : skind) (s : pstate) : pstate :=
+  R (C_with_ctx cx (A_stmt_list (CT_Statement k))) s.
+
+Definition arm_stmt_list (t : ctype) (op : bool) (p : cpred) (s : pstate) : pstate :=
+  let lvl := L 0 in
+  let s := R (C_with_ctx (ctx t op p lvl) A_structures) s in
+  let s := finish_logical_line s in
+  let s := take_separators_on_last_line lvl s in
+  if is_ending s || match cur_tt s with None => true | Some _ => false end then s
+  else R (C_stmt_list t op p) s.
+
+Definition arm_line_section (cx : pctx) (s : pstate) : pstate :=
+  pop_ctx (R C_statement (push_ctx cx s)).
+
+Definition arm_comment_lines (s : pstate) : pstate :=
+  R (C_block (ctx CT_Utility true P_not_comment_or_directive (L 0))) s.
+
+(* ---- parse_structures *)
+Definition s_loop : pstate -> pstate := R C_structures.
+Definition s_other (s : pstate) : pstate := s_loop (R C_statement s).
+
+Definition sa_directive (s : pstate) : pstate :=
+  match is_directive_before_next_token s with
+  | None => fail (E_panic PS_dir_before_sub) s
+  | Some false => s_loop (comment_arm true s)
+  | Some true =>
+      match is_directive_after_prev_token s with
+      | None => fail (E_panic PS_dir_after_sub) s
+      | Some true => s_loop (skip_token s)
+      | Some false => s_loop (comment_arm true s)
+      end
+  end.
+
+Definition sa_comment (s : pstate) : pstate :=
+  s_loop (comment_arm false s).
+
+Definition sa_program_head (k : KeywordKind) (s : pstate) : pstate :=
+  s_loop (program_head_arm k s).
+
+Definition sa_lbrack (s : pstate) : pstate :=
+  if at_start s then s_loop (make_unfinished_line (set_line_type LLT_Attribute (skip_pair s)))
+  else s_other s.
+
+Definition sa_section (k : KeywordKind) (s : pstate) : pstate :=
+  let s := finish_logical_line (next_token (finish_logical_line s)) in
+  s_loop (match k with
+        | KK_Interface => R (C_block (ctx CT_Interface true P_section_headings (L 0))) s
+        | KK_Implementation => R (C_block (ctx CT_Implementation true P_section_headings (L 0))) s
+        | KK_Initialization => stmt_block (CT_StatementBlock BK_Initialization) P_section_headings (L 1) SK_Normal s
+        | KK_Finalization => stmt_block (CT_StatementBlock BK_Finalization) P_section_headings (L 1) SK_Normal s
+        | _ => s
+        end).
+
+Definition sa_begin (s : pstate) : pstate :=
+  let s := stmt_block (CT_StatementBlock BK_Begin) P_end (L 1) SK_Normal (next_token s) in
+  let s := if o_kw_end (cur_tt s) then next_token s else s in
+  let s := if o_dot (cur_tt s) then next_token s else take_until no_more_separators s in
+  s_loop (finish_logical_line s).
+
+Definition sa_end (s : pstate) : pstate :=
+  let s := next_token s in
+  s_loop (if o_dot (cur_tt s) then next_token s else s).
+
+Definition sa_repeat (s : pstate) : pstate :=
+  let s := stmt_block (CT_StatementBlock BK_Repeat) P_until (L 1) SK_Normal (next_token s) in
+  let s := next_token s in
+  let s := push_ctx (ctx CT_BlockClause false P_never (L 0)) s in
+  let s := pop_ctx (R C_statement s) in
+  s_loop (finish_logical_line (take_until no_more_separators s)).
+
+Definition sa_try (s : pstate) : pstate :=
+  let s := stmt_block (CT_StatementBlock BK_Try) P_except_finally (L 1) SK_Normal (next_token s) in
+  let '(ct, sk) := match cur_tt s with
+                   | Some (RTT_Keyword KK_Except) => (CT_StatementBlock BK_Except, SK_Except)
+                   | _ => (CT_StatementBlock BK_Finally, SK_Normal)
+                   end in
+  let s := stmt_block ct P_else_end (L 1) sk (next_token s) in
+  let s := if o_kw_else (cur_tt s)
+           then stmt_block (CT_StatementBlock BK_Else) P_end (L 1) SK_Normal (next_token s) else s in
+  s_loop (finish_logical_line (take_until no_more_separators (next_token s))).
+
+Definition sa_on (s : pstate) : pstate :=
+  match last_ctype s with
+  | Some (CT_Statement SK_Except) => s_loop (R (C_do false) (consolidate_current_keyword s))
+  | _ => s_other s
+  end.
+
+Definition sa_do (is_for : bool) (s : pstate) : pstate :=
+  s_loop (R (C_do is_for) s).
+
+Definition sa_if (s : pstate) : pstate :=
+  s_loop (R C_if_then s).
+
+Definition sa_else (s : pstate) : pstate :=
+  s_loop (next_token s).
+
+Definition sa_case (s : pstate) : pstate :=
+  if is_in_type_decl s then s_loop (R C_variant_record s) else s_loop (R C_case_statement s).
+
+Definition sa_uses (s : pstate) : pstate :=
+  s_loop (R C_import_clause s).
+
+Definition sa_contains (s : pstate) : pstate :=
+  match last_ctype s with
+  | Some CT_Package => s_loop (R C_import_clause s)
+  | _ => s_other s
+  end.
+
+Definition sa_exports (s : pstate) : pstate :=
+  let s := finish_logical_line (next_token (finish_logical_line s)) in
+  let s := push_ctx (ctx CT_ImportExport true P_never (L 1)) s in
+  let s := R C_comment_lines s in
+  let s := parse_expression s in
+  let s := simple_op_until after_semicolon parse_exports_op s in
+  let s := finish_logical_line (set_line_type LLT_ExportClause s) in
+  s_loop (pop_ctx s).
+
+Definition sa_class (s : pstate) : pstate :=
+  let s := next_token s in
+  s_loop (match cur_kk s with
+        | Some KK_Operator => consolidate_class_op_in (consolidate_current_keyword s)
+        | _ => s
+        end).
+
+Definition sa_strict (s : pstate) : pstate :=
+  s_loop (next_token s).
+
+Definition sa_visibility (s : pstate) : pstate :=
+  if is_in_type_decl s then
+    let s := match prev_tt s with
+             | Some (RTT_IdentifierOrKeyword KK_Strict) => consolidate_prev_keyword s
+             | _ => s end in
+    let s := finish_logical_line (next_token (consolidate_current_keyword s)) in
+    s_loop (R (C_block (ctx CT_VisibilityBlock true P_visibility_block_ending (L 1))) s)
+  else s_other s.
+
+Definition sa_decl (k : KeywordKind) (s : pstate) : pstate :=
+  match last_ctype s with
+  | Some (CT_Statement _ | CT_StatementBlock _) =>
+      s_loop (next_token (set_current_decl_kind DK_Inline (set_line_type LLT_InlineDeclaration s)))
+  | _ =>
+      let s := next_token (set_current_decl_kind DK_Section s) in
+      let reduce := match last_ctype s with Some CT_SubRoutine => true | _ => false end in
+      let s := if reduce then push_ctx (ctx CT_SubRoutine true P_never (L (-1))) s else s in
+      let s := finish_logical_line s in
+      let ct := match k with KK_Type => CT_TypeBlock | _ => CT_DeclarationBlock end in
+      let s := R (C_block (ctx ct true P_declaration_section (L 1))) s in
+      s_loop (if reduce then pop_ctx s else s)
+  end.
+
+Definition sa_property (s : pstate) : pstate :=
+  s_loop (parse_property_declaration s).
+
+Definition sa_routine (s : pstate) : pstate :=
+  s_loop (R C_routine s).
+
+Definition sa_asm (s : pstate) : pstate :=
+  s_loop (R C_asm_block s).
+
+Definition sa_raise (s : pstate) : pstate :=
+  let s := parse_expression (next_token s) in
+  s_loop (match cur_kk s with
+        | Some KK_At => parse_expression (consolidate_current_keyword s)
+        | _ => s
+        end).
+
+Definition sa_other (s : pstate) : pstate :=
+  s_other s.
+
+Definition arm_structures (s : pstate) : pstate :=
+  match cur_tt s with
+  | None => s
+  | Some tk =>
+      match ending_ctx s with
+      | Some k => update_statuses k s
+      | None =>
+      match sarm_of tk with
+      | SA_directive => sa_directive s
+      | SA_comment => sa_comment s
+      | SA_program_head k => sa_program_head k s
+      | SA_lbrack => sa_lbrack s
+      | SA_section k => sa_section k s
+      | SA_begin => sa_begin s
+      | SA_end => sa_end s
+      | SA_repeat => sa_repeat s
+      | SA_try => sa_try s
+      | SA_on => sa_on s
+      | SA_do is_for => sa_do is_for s
+      | SA_if => sa_if s
+      | SA_else => sa_else s
+      | SA_case => sa_case s
+      | SA_uses => sa_uses s
+      | SA_contains => sa_contains s
+      | SA_exports => sa_exports s
+      | SA_class => sa_class s
+      | SA_strict => sa_strict s
+      | SA_visibility => sa_visibility s
+      | SA_decl k => sa_decl k s
+      | SA_property => sa_property s
+      | SA_routine => sa_routine s
+      | SA_asm => sa_asm s
+      | SA_raise => sa_raise s
+      | SA_other => sa_other s
+      end
+      end
+  end.
+
+(* ---- parse_statement *)
+Definition t_loop : pstate -> pstate := R C_statement.
+Definition t_other (s : pstate) : pstate := t_loop (next_token s).
+Definition label_or_other (s : pstate) : pstate :=
+  if at_start s && o_colon (next_tt s) && negb (is_label_ctx_excluded s)
+  then finish_logical_line (next_token (next_token s))
+  else t_other s.
+
+Definition st_struct_type (s : pstate) : pstate :=
+  let s := next_token s in
+  let s := match cur_kk s with
+           | Some (KK_Abstract | KK_Sealed) =>
+               next_token (if o_colon (next_tt s) then s else consolidate_current_keyword s)
+           | _ => s end in
+  let s := if match cur_kk s, next_tt s with
+              | Some KK_Helper, Some (RTT_Keyword KK_For | RTT_Op OK_LParen) => true
+              | _, _ => false end
+           then
+             let s := next_token (consolidate_current_keyword s) in
+             let s := if o_lparen (cur_tt s) then R C_parens s else s in
+             let s := match cur_kk s with Some KK_For => next_token s | _ => s end in
+             parse_expression s
+           else if o_lparen (cur_tt s) then R C_parens s else s in
+  match cur_tt s with
+  | Some (RTT_Keyword KK_Of) => next_token s
+  | Some (RTT_Op OK_Semicolon) => s
+  | _ =>
+      let s := finish_logical_line s in
+      let s := push_ctx (ctx CT_TypeDeclaration true P_end (L 0)) s in
+      let s := push_ctx (ctx CT_VisibilityBlock true P_visibility_block_ending (L 1)) s in
+      let s := if match cur_tt s, next_tt s with
+                  | Some (RTT_Op OK_LBrack), Some (RTT_TextLiteral _) => true
+                  | _, _ => false end
+               then
+                 let s := take_until (fun s => match cur_tt s with Some (RTT_Op OK_RBrack) => true | _ => false end) (next_token s) in
+                 finish_logical_line (set_line_type LLT_Guid (next_token s))
+               else s in
+      let s := pop_ctx (R C_structures s) in
+      let s := pop_ctx (R C_structures s) in
+      let s := next_token (finish_logical_line s) in
+      let s := simple_op_until after_semicolon
+                 (keyword_consolidator (fun k => is_portability k || match k with KK_Align => true | _ => false end)) s in
+      finish_logical_line (take_until no_more_separators s)
+  end.
+
+Definition st_of (s : pstate) : pstate :=
+  match last_ctype s with
+  | Some CT_BlockClause => pop_ctx s
+  | _ =>
+      let s := next_token s in
+      t_loop (match cur_tt s with
+            | Some (RTT_Keyword (KK_Const _)) => next_token (set_current_token_type (RTT_Keyword (KK_Const DK_Other)) s)
+            | _ => s
+            end)
+  end.
+
+Definition st_var (s : pstate) : pstate :=
+  t_loop (next_token (match prev_tt s with
+                    | Some (RTT_Keyword KK_For) => set_current_decl_kind DK_Inline s
+                    | _ => s end)).
+
+Definition st_lparen (s : pstate) : pstate :=
+  if o_colon (prev_tt s) && match last_ctype s with Some (CT_Statement SK_VariantRecord) => true | _ => false end
+  then t_loop (R C_variant_fields s)
+  else t_loop (R C_parens s).
+
+Definition st_semicolon (s : pstate) : pstate :=
+  finish_logical_line (take_until no_more_separators s).
+
+Definition st_lt (s : pstate) : pstate :=
+  match last_ctype s with
+  | Some CT_TypeBlock => t_loop (skip_pair s)
+  | _ => t_other s
+  end.
+
+Definition st_colon (s : pstate) : pstate :=
+  match line_parent_of_current s with
+  | None => fail (E_panic PS_line_parent_unwrap) s
+  | Some parent =>
+      let s := next_token s in
+      if llt_is (cur_type s) LLT_CaseArm then
+        t_loop (consolidate_current_caret_to_type (R (C_case_arm parent) (finish_logical_line s)))
+      else
+        match last_ctype s with
+        | Some (CT_VisibilityBlock | CT_DeclarationBlock | CT_TypeDeclaration) =>
+            match cur_tt s with
+            | Some (RTT_Keyword KK_Class) => t_loop (consolidate_current_caret_to_type (next_token s))
+            | Some (RTT_Keyword (KK_Function | KK_Procedure)) => finish_logical_line (parse_routine_header s)
+            | _ => t_loop (consolidate_current_caret_to_type s)
+            end
+        | _ => t_loop (consolidate_current_caret_to_type s)
+        end
+  end.
+
+Definition st_equal (s : pstate) : pstate :=
+  let s := if match last_ctype s with
+              | Some (CT_DeclarationBlock | CT_TypeBlock | CT_Statement _) => true
+              | _ => false end
+              && negb (existsb (fun t => match t with RTT_Op (OK_Equal EK_Decl | OK_Assign) => true | _ => false end)
+                               (cur_line_tts s))
+           then set_current_token_type (RTT_Op (OK_Equal EK_Decl)) s else s in
+  let s := next_token s in
+  match last_ctype s with
+  | Some CT_TypeBlock =>
+      match cur_tt s with
+      | Some (RTT_Keyword KK_Type) =>
+          let s := next_token s in
+          t_loop (if o_kw_of (cur_tt s) then next_token s else s)
+      | Some (RTT_Op (OK_Caret _)) => t_loop (next_token (consolidate_current_caret_to_type s))
+      | Some (RTT_Keyword (KK_Function | KK_Procedure)) => finish_logical_line (parse_routine_header s)
+      | Some (RTT_Op OK_LParen) =>
+          let p0 := ps_paren s in
+          t_loop (simple_op_until (outside_parens p0) enum_op (next_token s))
+      | _ => t_loop s
+      end
+  | _ => t_loop s
+  end.
+
+Definition st_reference (s : pstate) : pstate :=
+  t_loop (next_token (match next_tt s with
+                    | Some (RTT_Keyword KK_To) => consolidate_current_keyword s
+                    | _ => s end)).
+
+Definition st_in (s : pstate) : pstate :=
+  t_loop (next_token
+          (if llt_is (cur_type s) LLT_ForLoop
+              && negb (existsb (fun t => match t with RTT_Keyword (KK_In IK_ForLoop) => true | _ => false end)
+                               (cur_line_tts s))
+           then set_current_token_type (RTT_Keyword (KK_In IK_ForLoop)) s else s)).
+
+Definition st_to (s : pstate) : pstate :=
+  let s := next_token s in
+  if o_routine_kw (cur_tt s) then finish_logical_line (parse_routine_header s) else t_loop s.
+
+Definition st_absolute (s : pstate) : pstate :=
+  match prev_tt s with
+  | Some (RTT_Identifier | RTT_IdentifierOrKeyword _) => t_loop (next_token (consolidate_current_keyword s))
+  | _ => label_or_other s
+  end.
+
+Definition st_assign (s : pstate) : pstate :=
+  let s := next_token s in
+  t_loop (if llt_is (cur_type s) LLT_Unknown then set_line_type LLT_Assignment s else s).
+
+Definition st_routine (s : pstate) : pstate :=
+  t_loop (R C_anon s).
+
+Definition st_begin (s : pstate) : pstate :=
+  let s := stmt_block (CT_StatementBlock BK_Begin) P_end (L 1) SK_Normal (next_token s) in
+  t_loop (finish_logical_line (take_until no_more_separators (next_token s))).
+
+Definition st_label_cand (s : pstate) : pstate :=
+  label_or_other s.
+
+Definition st_other (s : pstate) : pstate :=
+  t_other s.
+
+Definition arm_statement (s : pstate) : pstate :=
+  match cur_tt s with
+  | None => s
+  | Some tk =>
+      let (s, go) := statement_prelude s in
+      if negb go then s else
+      match starm_of tk with
+      | ST_struct_type => st_struct_type s
+      | ST_of => st_of s
+      | ST_var => st_var s
+      | ST_lparen => st_lparen s
+      | ST_semicolon => st_semicolon s
+      | ST_lt => st_lt s
+      | ST_colon => st_colon s
+      | ST_equal => st_equal s
+      | ST_reference => st_reference s
+      | ST_in => st_in s
+      | ST_to => st_to s
+      | ST_absolute => st_absolute s
+      | ST_assign => st_assign s
+      | ST_routine => st_routine s
+      | ST_begin => st_begin s
+      | ST_label_cand => st_label_cand s
+      | ST_other => st_other s
+      end
+  end.
+
+Definition arm_if_then (s : pstate) : pstate :=
+  let s := R (C_line_section (ctx CT_Utility true P_then (L 0))) (next_token s) in
+  match cur_kk s with
+  | Some KK_Then =>
+      match line_parent_of_current s with
+      | None => fail (E_panic PS_line_parent_unwrap) s
+      | Some parent =>
+          let s := next_token s in
+          let lvl := CL_Parent parent 1%N in
+          let s := R (C_block (ctx (CT_Statement SK_Normal) false P_else lvl)) s in
+          let else_branch :=
+            match last_is_ended s, cur_kk s with
+            | Some false, Some KK_Else => true
+            | _, _ => false
+            end in
+          if else_branch then
+            match line_parent_of_current s with
+            | None => fail (E_panic PS_line_parent_unwrap) s
+            | Some parent2 =>
+                let s := next_token s in
+                let lvl2 := CL_Parent parent2 1%N in
+                let s := R (C_block (ctx (CT_Statement SK_Normal) false P_never lvl2)) s in
+                finish_logical_line (take_separators_on_last_line lvl2 s)
+            end
+          else finish_logical_line (take_separators_on_last_line lvl s)
+      end
+  | _ => s
+  end.
+
+Definition arm_do (is_for : bool) (s : pstate) : pstate :=
+  let s := next_token s in
+  let s := set_line_type (if is_for then LLT_ForLoop else LLT_Unknown) s in
+  let s := R (C_line_section (ctx CT_Utility true P_kw_do (L 0))) s in
+  match cur_kk s with
+  | Some KK_Do =>
+      match line_parent_of_current s with
+      | None => fail (E_panic PS_line_parent_unwrap) s
+      | Some parent =>
+          let s := next_token s in
+          let lvl := CL_Parent parent 1%N in
+          let s := R (C_block (ctx (CT_Statement SK_Normal) false P_never lvl)) s in
+          finish_logical_line (take_separators_on_last_line lvl s)
+      end
+  | _ => s
+  end.
+
+Definition arm_case_statement (s : pstate) : pstate :=
+  let s := set_line_type LLT_CaseHeader (next_token s) in
+  let s := R (C_line_section (ctx CT_Utility true P_of (L 0))) s in
+  if o_kw_of (cur_tt s) then
+    let s := finish_logical_line (next_token s) in
+    let s := stmt_block (CT_Statement SK_Case) P_else_end (L 1) SK_Case s in
+    let s := if o_kw_else (cur_tt s)
+             then stmt_block (CT_StatementBlock BK_Else) P_end (L 1) SK_Normal (finish_logical_line (next_token s))
+             else s in
+    if o_kw_end (cur_tt s) then next_token s else s
+  else s.
+
+Definition arm_variant_record (s : pstate) : pstate :=
+  let delta := match last_ctx s with
+               | Some c0 => match c_level c0 with CL_Parent _ _ => 0%Z | CL_Level _ => (-1)%Z end
+               | None => (-1)%Z
+               end in
+  let s := push_ctx (ctx CT_VariantRecord false P_never (L delta)) s in
+  let s := set_line_type LLT_CaseHeader (next_token s) in
+  let s := R (C_line_section (ctx CT_Utility true P_of (L 0))) s in
+  if o_kw_of (cur_tt s) then
+    let s := finish_logical_line (next_token s) in
+    let s := R (C_stmt_block (ctx CT_VariantDeclarationBlock false P_rparen (L 1)) SK_VariantRecord) s in
+    pop_ctx s
+  else s      (* sic: returns without popping the VariantRecord context *).
+
+Definition arm_case_arm (parent : nat * nat) (s : pstate) : pstate :=
+  let lvl := CL_Parent parent 1%N in
+  let s := R (C_block (ctx (CT_Statement SK_Normal) false P_never lvl)) s in
+  finish_logical_line (take_separators_on_last_line lvl s).
+
+Definition arm_import_clause (s : pstate) : pstate :=
+  let s := finish_logical_line (next_token (consolidate_current_keyword (finish_logical_line s))) in
+  let s := push_ctx (ctx CT_ImportExport true P_never (L 1)) s in
+  let s := R C_comment_lines s in
+  let s := simple_op_until after_semicolon import_op s in
+  pop_ctx (finish_logical_line (set_line_type LLT_ImportClause s)).
+
+Definition arm_parens (s : pstate) : pstate :=
+  R C_parens_loop (next_token s).
+
+Definition arm_parens_loop (s : pstate) : pstate :=
+  match cur_tt s with
+  | None => s
+  | Some (RTT_Op OK_LParen) => R C_parens_loop (R C_parens s)
+  | Some (RTT_Op OK_RParen) => next_token s
+  | Some (RTT_Keyword (KK_Function | KK_Procedure)) => R C_parens_loop (R C_anon s)
+  | Some _ => R C_parens_loop (next_token s)
+  end.
+
+Definition arm_variant_fields (s : pstate) : pstate :=
+  match line_parent_of_current s with
+  | None => fail (E_panic PS_line_parent_unwrap) s
+  | Some parent =>
+      let s := R (C_block (ctx CT_DeclarationBlock true P_rparen (CL_Parent parent 1%N))) (next_token s) in
+      if o_rparen (cur_tt s) then next_token s else s
+  end.
+
+Definition arm_anon (s : pstate) : pstate :=
+  match line_parent_of_current s with
+  | None => fail (E_panic PS_anon_routine_unwrap) s
+  | Some parent => R (C_anon_loop parent) (next_token s)
+  end.
+
+Definition arm_anon_loop (parent : nat * nat) (s : pstate) : pstate :=
+  let loop := R (C_anon_loop parent) in
+  match cur_tt s with
+  | None => s
+  | Some (RTT_Op OK_LParen) => loop (parse_parameter_list s)
+  | Some (RTT_Op (OK_Semicolon | OK_RParen | OK_RBrack)) => s
+  | Some (RTT_Keyword k) =>
+      if KeywordKind_is_decl_section k then
+        let ct := match k with KK_Type => CT_TypeBlock | KK_Label => CT_LabelBlock | _ => CT_DeclarationBlock end in
+        let s := set_current_decl_kind DK_AnonSection s in
+        let s := R (C_with_ctx (ctx ct true P_never (CL_Parent parent 0%N)) A_next_token) s in
+        loop (R (C_block (ctx ct true P_local_declaration_section (CL_Parent parent 1%N))) s)
+      else match k with
+           | KK_Begin =>
+               match line_parent_of_current s with
+               | None => fail (E_panic PS_line_parent_unwrap) s
+               | Some p => R (C_begin_end (CL_Parent p 1%N)) s
+               end
+           | KK_Procedure | KK_Function =>
+               loop (R (C_with_ctx (ctx CT_SubRoutine true P_never (CL_Parent parent 1%N)) A_routine) s)
+           | _ => loop (next_token s)
+           end
+  | Some _ => loop (next_token s)
+  end.
+
+Definition arm_routine (s : pstate) : pstate :=
+  let s := parse_routine_header (set_line_type LLT_RoutineHeader s) in
+  let fwd := existsb (fun t => match t with RTT_Keyword (KK_Forward | KK_External) => true | _ => false end) (cur_line_tts s)
+             || any_ctype (fun t => match t with CT_Interface | CT_TypeDeclaration => true | _ => false end) s in
+  let s := finish_logical_line s in
+  if fwd then s
+  else
+    let s := R (C_block (ctx CT_SubRoutine true P_begin_asm (L 1))) s in
+    match cur_tt s with
+    | Some (RTT_Keyword KK_Asm) => R C_asm_block s
+    | Some (RTT_Keyword KK_Begin) =>
+        finish_logical_line (take_until no_more_separators (R (C_begin_end (L 1)) s))
+    | _ => s
+    end.
+
+Definition arm_asm_block (s : pstate) : pstate :=
+  let s := finish_logical_line (next_token s) in
+  let s := R (C_with_ctx (ctx (CT_StatementBlock BK_Asm) true P_never (L 1)) A_asm) s in
+  finish_logical_line (take_until no_more_separators (next_token s)).
+
+Definition arm_begin_end (lvl : clevel) (s : pstate) : pstate :=
+  let s := stmt_block (CT_StatementBlock BK_Begin) P_end lvl SK_Normal (next_token s) in
+  next_token s.
+
+Definition arm_top (s : pstate) : pstate :=
+  let s := R (C_stmt_list CT_TopLevelStatement true P_top_semicolon) s in
+  let s := next_token (finish_logical_line s) in
+  finish_logical_line (set_line_type LLT_Eof s).
+
+End Arms.
+
+(* the one recursive function: every nested call and loop iteration goes through here and takes one
+   unit of fuel *)
 Fixpoint run (fuel : nat) (c : call) (s : pstate) : pstate :=
   if has_err s then s else
   match fuel with
   | O => fail E_fuel s
   | S f =>
-    let R := run f in
-    let stmt_block t p l k := R (C_stmt_block (ctx t true p l) k) in
     match c with
-    (* ---------------- do_with_context and its wrappers *)
-    | C_with_ctx cx a =>
-        let par := clevel_parent (c_level cx) in
-        let s := match par with
-                 | Some p => p_emit KC (mkLM (Some p) 0%N LLT_Unknown) s
-                 | None => finish_logical_line s
-                 end in
-        let s := push_ctx cx s in
-        let s := match a with
-                 | A_stmt_list t => R (C_stmt_list t false P_semicolon) s
-                 | A_structures => R C_structures s
-                 | A_block => finish_logical_line (R C_structures s)
-                 | A_next_token => next_token s
-                 | A_routine => R C_routine s
-                 | A_asm => parse_asm_instructions s
-                 end in
-        let s := pop_ctx s in
-        match par with Some _ => p_emit Kc lm0 s | None => s end
-    | C_block cx => R (C_with_ctx cx A_block) s
-    | C_stmt_block cx k => R (C_with_ctx cx (A_stmt_list (CT_Statement k))) s
-    | C_stmt_list t op p =>
-        let lvl := L 0 in
-        let s := R (C_with_ctx (ctx t op p lvl) A_structures) s in
-        let s := finish_logical_line s in
-        let s := take_separators_on_last_line lvl s in
-        if is_ending s || match cur_tt s with None => true | Some _ => false end then s
-        else R (C_stmt_list t op p) s
-    | C_line_section cx => pop_ctx (R C_statement (push_ctx cx s))
-    | C_comment_lines => R (C_block (ctx CT_Utility true P_not_comment_or_directive (L 0))) s
-    (* ---------------- parse_structures: one iteration, then itself *)
-    | C_structures =>
-        match cur_tt s with
-        | None => s
-        | Some tk =>
-          match ending_ctx s with
-          | Some k => update_statuses k s
-          | None =>
-            let loop := R C_structures in
-            let other s := loop (R C_statement s) in
-            match sarm_of tk with
-            | SA_directive =>
-                match is_directive_before_next_token s with
-                | None => fail (E_panic PS_dir_before_sub) s
-                | Some false => loop (comment_arm true s)
-                | Some true =>
-                    match is_directive_after_prev_token s with
-                    | None => fail (E_panic PS_dir_after_sub) s
-                    | Some true => loop (skip_token s)
-                    | Some false => loop (comment_arm true s)
-                    end
-                end
-            | SA_comment => loop (comment_arm false s)
-            | SA_program_head k => loop (program_head_arm k s)
-            | SA_lbrack =>
-                if at_start s then loop (make_unfinished_line (set_line_type LLT_Attribute (skip_pair s)))
-                else other s
-            | SA_section k =>
-                let s := finish_logical_line (next_token (finish_logical_line s)) in
-                loop (match k with
-                      | KK_Interface => R (C_block (ctx CT_Interface true P_section_headings (L 0))) s
-                      | KK_Implementation => R (C_block (ctx CT_Implementation true P_section_headings (L 0))) s
-                      | KK_Initialization => stmt_block (CT_StatementBlock BK_Initialization) P_section_headings (L 1) SK_Normal s
-                      | KK_Finalization => stmt_block (CT_StatementBlock BK_Finalization) P_section_headings (L 1) SK_Normal s
-                      | _ => s
-                      end)
-            | SA_begin =>
-                let s := stmt_block (CT_StatementBlock BK_Begin) P_end (L 1) SK_Normal (next_token s) in
-                let s := if o_kw_end (cur_tt s) then next_token s else s in
-                let s := if o_dot (cur_tt s) then next_token s else take_until no_more_separators s in
-                loop (finish_logical_line s)
-            | SA_end =>
-                let s := next_token s in
-                loop (if o_dot (cur_tt s) then next_token s else s)
-            | SA_repeat =>
-                let s := stmt_block (CT_StatementBlock BK_Repeat) P_until (L 1) SK_Normal (next_token s) in
-                let s := next_token s in
-                let s := push_ctx (ctx CT_BlockClause false P_never (L 0)) s in
-                let s := pop_ctx (R C_statement s) in
-                loop (finish_logical_line (take_until no_more_separators s))
-            | SA_try =>
-                let s := stmt_block (CT_StatementBlock BK_Try) P_except_finally (L 1) SK_Normal (next_token s) in
-                let '(ct, sk) := match cur_tt s with
-                                 | Some (RTT_Keyword KK_Except) => (CT_StatementBlock BK_Except, SK_Except)
-                                 | _ => (CT_StatementBlock BK_Finally, SK_Normal)
-                                 end in
-                let s := stmt_block ct P_else_end (L 1) sk (next_token s) in
-                let s := if o_kw_else (cur_tt s)
-                         then stmt_block (CT_StatementBlock BK_Else) P_end (L 1) SK_Normal (next_token s) else s in
-                loop (finish_logical_line (take_until no_more_separators (next_token s)))
-            | SA_on =>
-                match last_ctype s with
-                | Some (CT_Statement SK_Except) => loop (R (C_do false) (consolidate_current_keyword s))
-                | _ => other s
-                end
-            | SA_do is_for => loop (R (C_do is_for) s)
-            | SA_if => loop (R C_if_then s)
-            | SA_else => loop (next_token s)
-            | SA_case =>
-                if is_in_type_decl s then loop (R C_variant_record s) else loop (R C_case_statement s)
-            | SA_uses => loop (R C_import_clause s)
-            | SA_contains =>
-                match last_ctype s with
-                | Some CT_Package => loop (R C_import_clause s)
-                | _ => other s
-                end
-            | SA_exports =>
-                let s := finish_logical_line (next_token (finish_logical_line s)) in
-                let s := push_ctx (ctx CT_ImportExport true P_never (L 1)) s in
-                let s := R C_comment_lines s in
-                let s := parse_expression s in
-                let s := simple_op_until after_semicolon parse_exports_op s in
-                let s := finish_logical_line (set_line_type LLT_ExportClause s) in
-                loop (pop_ctx s)
-            | SA_class =>
-                let s := next_token s in
-                loop (match cur_kk s with
-                      | Some KK_Operator => consolidate_class_op_in (consolidate_current_keyword s)
-                      | _ => s
-                      end)
-            | SA_strict => loop (next_token s)
-            | SA_visibility =>
-                if is_in_type_decl s then
-                  let s := match prev_tt s with
-                           | Some (RTT_IdentifierOrKeyword KK_Strict) => consolidate_prev_keyword s
-                           | _ => s end in
-                  let s := finish_logical_line (next_token (consolidate_current_keyword s)) in
-                  loop (R (C_block (ctx CT_VisibilityBlock true P_visibility_block_ending (L 1))) s)
-                else other s
-            | SA_decl k =>
-                match last_ctype s with
-                | Some (CT_Statement _ | CT_StatementBlock _) =>
-                    loop (next_token (set_current_decl_kind DK_Inline (set_line_type LLT_InlineDeclaration s)))
-                | _ =>
-                    let s := next_token (set_current_decl_kind DK_Section s) in
-                    let reduce := match last_ctype s with Some CT_SubRoutine => true | _ => false end in
-                    let s := if reduce then push_ctx (ctx CT_SubRoutine true P_never (L (-1))) s else s in
-                    let s := finish_logical_line s in
-                    let ct := match k with KK_Type => CT_TypeBlock | _ => CT_DeclarationBlock end in
-                    let s := R (C_block (ctx ct true P_declaration_section (L 1))) s in
-                    loop (if reduce then pop_ctx s else s)
-                end
-            | SA_property => loop (parse_property_declaration s)
-            | SA_routine => loop (R C_routine s)
-            | SA_asm => loop (R C_asm_block s)
-            | SA_raise =>
-                let s := parse_expression (next_token s) in
-                loop (match cur_kk s with
-                      | Some KK_At => parse_expression (consolidate_current_keyword s)
-                      | _ => s
-                      end)
-            | SA_other => other s
-            end
-          end
-        end
-    (* ---------------- parse_statement: one iteration, then itself (unless it returns) *)
-    | C_statement =>
-        match cur_tt s with
-        | None => s
-        | Some tk =>
-          let (s, go) := statement_prelude s in
-          if negb go then s else
-          let loop := R C_statement in
-          let other s := loop (next_token s) in
-          let label_or_other s :=
-            if at_start s && o_colon (next_tt s) && negb (is_label_ctx_excluded s)
-            then finish_logical_line (next_token (next_token s))
-            else other s in
-          match starm_of tk with
-          | ST_struct_type =>
-              let s := next_token s in
-              let s := match cur_kk s with
-                       | Some (KK_Abstract | KK_Sealed) =>
-                           next_token (if o_colon (next_tt s) then s else consolidate_current_keyword s)
-                       | _ => s end in
-              let s := if match cur_kk s, next_tt s with
-                          | Some KK_Helper, Some (RTT_Keyword KK_For | RTT_Op OK_LParen) => true
-                          | _, _ => false end
-                       then
-                         let s := next_token (consolidate_current_keyword s) in
-                         let s := if o_lparen (cur_tt s) then R C_parens s else s in
-                         let s := match cur_kk s with Some KK_For => next_token s | _ => s end in
-                         parse_expression s
-                       else if o_lparen (cur_tt s) then R C_parens s else s in
-              match cur_tt s with
-              | Some (RTT_Keyword KK_Of) => next_token s
-              | Some (RTT_Op OK_Semicolon) => s
-              | _ =>
-                  let s := finish_logical_line s in
-                  let s := push_ctx (ctx CT_TypeDeclaration true P_end (L 0)) s in
-                  let s := push_ctx (ctx CT_VisibilityBlock true P_visibility_block_ending (L 1)) s in
-                  let s := if match cur_tt s, next_tt s with
-                              | Some (RTT_Op OK_LBrack), Some (RTT_TextLiteral _) => true
-                              | _, _ => false end
-                           then
-                             let s := take_until (fun s => match cur_tt s with Some (RTT_Op OK_RBrack) => true | _ => false end) (next_token s) in
-                             finish_logical_line (set_line_type LLT_Guid (next_token s))
-                           else s in
-                  let s := pop_ctx (R C_structures s) in
-                  let s := pop_ctx (R C_structures s) in
-                  let s := next_token (finish_logical_line s) in
-                  let s := simple_op_until after_semicolon
-                             (keyword_consolidator (fun k => is_portability k || match k with KK_Align => true | _ => false end)) s in
-                  finish_logical_line (take_until no_more_separators s)
-              end
-          | ST_of =>
-              match last_ctype s with
-              | Some CT_BlockClause => pop_ctx s
-              | _ =>
-                  let s := next_token s in
-                  loop (match cur_tt s with
-                        | Some (RTT_Keyword (KK_Const _)) => next_token (set_current_token_type (RTT_Keyword (KK_Const DK_Other)) s)
-                        | _ => s
-                        end)
-              end
-          | ST_var =>
-              loop (next_token (match prev_tt s with
-                                | Some (RTT_Keyword KK_For) => set_current_decl_kind DK_Inline s
-                                | _ => s end))
-          | ST_lparen =>
-              if o_colon (prev_tt s) && match last_ctype s with Some (CT_Statement SK_VariantRecord) => true | _ => false end
-              then loop (R C_variant_fields s)
-              else loop (R C_parens s)
-          | ST_semicolon => finish_logical_line (take_until no_more_separators s)
-          | ST_lt =>
-              match last_ctype s with
-              | Some CT_TypeBlock => loop (skip_pair s)
-              | _ => other s
-              end
-          | ST_colon =>
-              match line_parent_of_current s with
-              | None => fail (E_panic PS_line_parent_unwrap) s
-              | Some parent =>
-                  let s := next_token s in
-                  if llt_is (cur_type s) LLT_CaseArm then
-                    loop (consolidate_current_caret_to_type (R (C_case_arm parent) (finish_logical_line s)))
-                  else
-                    match last_ctype s with
-                    | Some (CT_VisibilityBlock | CT_DeclarationBlock | CT_TypeDeclaration) =>
-                        match cur_tt s with
-                        | Some (RTT_Keyword KK_Class) => loop (consolidate_current_caret_to_type (next_token s))
-                        | Some (RTT_Keyword (KK_Function | KK_Procedure)) => finish_logical_line (parse_routine_header s)
-                        | _ => loop (consolidate_current_caret_to_type s)
-                        end
-                    | _ => loop (consolidate_current_caret_to_type s)
-                    end
-              end
-          | ST_equal =>
-              let s := if match last_ctype s with
-                          | Some (CT_DeclarationBlock | CT_TypeBlock | CT_Statement _) => true
-                          | _ => false end
-                          && negb (existsb (fun t => match t with RTT_Op (OK_Equal EK_Decl | OK_Assign) => true | _ => false end)
-                                           (cur_line_tts s))
-                       then set_current_token_type (RTT_Op (OK_Equal EK_Decl)) s else s in
-              let s := next_token s in
-              match last_ctype s with
-              | Some CT_TypeBlock =>
-                  match cur_tt s with
-                  | Some (RTT_Keyword KK_Type) =>
-                      let s := next_token s in
-                      loop (if o_kw_of (cur_tt s) then next_token s else s)
-                  | Some (RTT_Op (OK_Caret _)) => loop (next_token (consolidate_current_caret_to_type s))
-                  | Some (RTT_Keyword (KK_Function | KK_Procedure)) => finish_logical_line (parse_routine_header s)
-                  | Some (RTT_Op OK_LParen) =>
-                      let p0 := ps_paren s in
-                      loop (simple_op_until (outside_parens p0) enum_op (next_token s))
-                  | _ => loop s
-                  end
-              | _ => loop s
-              end
-          | ST_reference =>
-              loop (next_token (match next_tt s with
-                                | Some (RTT_Keyword KK_To) => consolidate_current_keyword s
-                                | _ => s end))
-          | ST_in =>
-              loop (next_token
-                      (if llt_is (cur_type s) LLT_ForLoop
-                          && negb (existsb (fun t => match t with RTT_Keyword (KK_In IK_ForLoop) => true | _ => false end)
-                                           (cur_line_tts s))
-                       then set_current_token_type (RTT_Keyword (KK_In IK_ForLoop)) s else s))
-          | ST_to =>
-              let s := next_token s in
-              if o_routine_kw (cur_tt s) then finish_logical_line (parse_routine_header s) else loop s
-          | ST_absolute =>
-              match prev_tt s with
-              | Some (RTT_Identifier | RTT_IdentifierOrKeyword _) => loop (next_token (consolidate_current_keyword s))
-              | _ => label_or_other s
-              end
-          | ST_assign =>
-              let s := next_token s in
-              loop (if llt_is (cur_type s) LLT_Unknown then set_line_type LLT_Assignment s else s)
-          | ST_routine => loop (R C_anon s)
-          | ST_begin =>
-              let s := stmt_block (CT_StatementBlock BK_Begin) P_end (L 1) SK_Normal (next_token s) in
-              loop (finish_logical_line (take_until no_more_separators (next_token s)))
-          | ST_label_cand => label_or_other s
-          | ST_other => other s
-          end
-        end
-    (* ---------------- the structured statements *)
-    | C_if_then =>
-        let s := R (C_line_section (ctx CT_Utility true P_then (L 0))) (next_token s) in
-        match cur_kk s with
-        | Some KK_Then =>
-            match line_parent_of_current s with
-            | None => fail (E_panic PS_line_parent_unwrap) s
-            | Some parent =>
-                let s := next_token s in
-                let lvl := CL_Parent parent 1%N in
-                let s := R (C_block (ctx (CT_Statement SK_Normal) false P_else lvl)) s in
-                let else_branch :=
-                  match last_is_ended s, cur_kk s with
-                  | Some false, Some KK_Else => true
-                  | _, _ => false
-                  end in
-                if else_branch then
-                  match line_parent_of_current s with
-                  | None => fail (E_panic PS_line_parent_unwrap) s
-                  | Some parent2 =>
-                      let s := next_token s in
-                      let lvl2 := CL_Parent parent2 1%N in
-                      let s := R (C_block (ctx (CT_Statement SK_Normal) false P_never lvl2)) s in
-                      finish_logical_line (take_separators_on_last_line lvl2 s)
-                  end
-                else finish_logical_line (take_separators_on_last_line lvl s)
-            end
-        | _ => s
-        end
-    | C_do is_for =>
-        let s := next_token s in
-        let s := set_line_type (if is_for then LLT_ForLoop else LLT_Unknown) s in
-        let s := R (C_line_section (ctx CT_Utility true P_kw_do (L 0))) s in
-        match cur_kk s with
-        | Some KK_Do =>
-            match line_parent_of_current s with
-            | None => fail (E_panic PS_line_parent_unwrap) s
-            | Some parent =>
-                let s := next_token s in
-                let lvl := CL_Parent parent 1%N in
-                let s := R (C_block (ctx (CT_Statement SK_Normal) false P_never lvl)) s in
-                finish_logical_line (take_separators_on_last_line lvl s)
-            end
-        | _ => s
-        end
-    | C_case_statement =>
-        let s := set_line_type LLT_CaseHeader (next_token s) in
-        let s := R (C_line_section (ctx CT_Utility true P_of (L 0))) s in
-        if o_kw_of (cur_tt s) then
-          let s := finish_logical_line (next_token s) in
-          let s := stmt_block (CT_Statement SK_Case) P_else_end (L 1) SK_Case s in
-          let s := if o_kw_else (cur_tt s)
-                   then stmt_block (CT_StatementBlock BK_Else) P_end (L 1) SK_Normal (finish_logical_line (next_token s))
-                   else s in
-          if o_kw_end (cur_tt s) then next_token s else s
-        else s
-    | C_variant_record =>
-        let delta := match last_ctx s with
-                     | Some c0 => match c_level c0 with CL_Parent _ _ => 0%Z | CL_Level _ => (-1)%Z end
-                     | None => (-1)%Z
-                     end in
-        let s := push_ctx (ctx CT_VariantRecord false P_never (L delta)) s in
-        let s := set_line_type LLT_CaseHeader (next_token s) in
-        let s := R (C_line_section (ctx CT_Utility true P_of (L 0))) s in
-        if o_kw_of (cur_tt s) then
-          let s := finish_logical_line (next_token s) in
-          let s := R (C_stmt_block (ctx CT_VariantDeclarationBlock false P_rparen (L 1)) SK_VariantRecord) s in
-          pop_ctx s
-        else s      (* sic: returns without popping the VariantRecord context *)
-    | C_case_arm parent =>
-        let lvl := CL_Parent parent 1%N in
-        let s := R (C_block (ctx (CT_Statement SK_Normal) false P_never lvl)) s in
-        finish_logical_line (take_separators_on_last_line lvl s)
-    | C_import_clause =>
-        let s := finish_logical_line (next_token (consolidate_current_keyword (finish_logical_line s))) in
-        let s := push_ctx (ctx CT_ImportExport true P_never (L 1)) s in
-        let s := R C_comment_lines s in
-        let s := simple_op_until after_semicolon import_op s in
-        pop_ctx (finish_logical_line (set_line_type LLT_ImportClause s))
-    | C_parens => R C_parens_loop (next_token s)
-    | C_parens_loop =>
-        match cur_tt s with
-        | None => s
-        | Some (RTT_Op OK_LParen) => R C_parens_loop (R C_parens s)
-        | Some (RTT_Op OK_RParen) => next_token s
-        | Some (RTT_Keyword (KK_Function | KK_Procedure)) => R C_parens_loop (R C_anon s)
-        | Some _ => R C_parens_loop (next_token s)
-        end
-    | C_variant_fields =>
-        match line_parent_of_current s with
-        | None => fail (E_panic PS_line_parent_unwrap) s
-        | Some parent =>
-            let s := R (C_block (ctx CT_DeclarationBlock true P_rparen (CL_Parent parent 1%N))) (next_token s) in
-            if o_rparen (cur_tt s) then next_token s else s
-        end
-    | C_anon =>
-        match line_parent_of_current s with
-        | None => fail (E_panic PS_anon_routine_unwrap) s
-        | Some parent => R (C_anon_loop parent) (next_token s)
-        end
-    | C_anon_loop parent =>
-        let loop := R (C_anon_loop parent) in
-        match cur_tt s with
-        | None => s
-        | Some (RTT_Op OK_LParen) => loop (parse_parameter_list s)
-        | Some (RTT_Op (OK_Semicolon | OK_RParen | OK_RBrack)) => s
-        | Some (RTT_Keyword k) =>
-            if KeywordKind_is_decl_section k then
-              let ct := match k with KK_Type => CT_TypeBlock | KK_Label => CT_LabelBlock | _ => CT_DeclarationBlock end in
-              let s := set_current_decl_kind DK_AnonSection s in
-              let s := R (C_with_ctx (ctx ct true P_never (CL_Parent parent 0%N)) A_next_token) s in
-              loop (R (C_block (ctx ct true P_local_declaration_section (CL_Parent parent 1%N))) s)
-            else match k with
-                 | KK_Begin =>
-                     match line_parent_of_current s with
-                     | None => fail (E_panic PS_line_parent_unwrap) s
-                     | Some p => R (C_begin_end (CL_Parent p 1%N)) s
-                     end
-                 | KK_Procedure | KK_Function =>
-                     loop (R (C_with_ctx (ctx CT_SubRoutine true P_never (CL_Parent parent 1%N)) A_routine) s)
-                 | _ => loop (next_token s)
-                 end
-        | Some _ => loop (next_token s)
-        end
-    | C_routine =>
-        let s := parse_routine_header (set_line_type LLT_RoutineHeader s) in
-        let fwd := existsb (fun t => match t with RTT_Keyword (KK_Forward | KK_External) => true | _ => false end) (cur_line_tts s)
-                   || any_ctype (fun t => match t with CT_Interface | CT_TypeDeclaration => true | _ => false end) s in
-        let s := finish_logical_line s in
-        if fwd then s
-        else
-          let s := R (C_block (ctx CT_SubRoutine true P_begin_asm (L 1))) s in
-          match cur_tt s with
-          | Some (RTT_Keyword KK_Asm) => R C_asm_block s
-          | Some (RTT_Keyword KK_Begin) =>
-              finish_logical_line (take_until no_more_separators (R (C_begin_end (L 1)) s))
-          | _ => s
-          end
-    | C_asm_block =>
-        let s := finish_logical_line (next_token s) in
-        let s := R (C_with_ctx (ctx (CT_StatementBlock BK_Asm) true P_never (L 1)) A_asm) s in
-        finish_logical_line (take_until no_more_separators (next_token s))
-    | C_begin_end lvl =>
-        let s := stmt_block (CT_StatementBlock BK_Begin) P_end lvl SK_Normal (next_token s) in
-        next_token s
-    | C_top =>
-        let s := R (C_stmt_list CT_TopLevelStatement true P_top_semicolon) s in
-        let s := next_token (finish_logical_line s) in
-        finish_logical_line (set_line_type LLT_Eof s)
+    | C_with_ctx cx a => arm_with_ctx (run f) cx a s
+    | C_block cx => arm_block (run f) cx s
+    | C_stmt_block cx k => arm_stmt_block (run f) cx k s
+    | C_stmt_list t op p => arm_stmt_list (run f) t op p s
+    | C_line_section cx => arm_line_section (run f) cx s
+    | C_comment_lines => arm_comment_lines (run f) s
+    | C_structures => arm_structures (run f) s
+    | C_statement => arm_statement (run f) s
+    | C_if_then => arm_if_then (run f) s
+    | C_do is_for => arm_do (run f) is_for s
+    | C_case_statement => arm_case_statement (run f) s
+    | C_variant_record => arm_variant_record (run f) s
+    | C_case_arm parent => arm_case_arm (run f) parent s
+    | C_import_clause => arm_import_clause (run f) s
+    | C_parens => arm_parens (run f) s
+    | C_parens_loop => arm_parens_loop (run f) s
+    | C_variant_fields => arm_variant_fields (run f) s
+    | C_anon => arm_anon (run f) s
+    | C_anon_loop parent => arm_anon_loop (run f) parent s
+    | C_routine => arm_routine (run f) s
+    | C_asm_block => arm_asm_block (run f) s
+    | C_begin_end lvl => arm_begin_end (run f) lvl s
+    | C_top => arm_top (run f) s
     end
   end.
 
